@@ -273,4 +273,296 @@ theorem mkTokenizer_ok {ws vq b : Str} (hb : BracketOk ws vq b) (pipe : Bool) (q
   match b, hb with
   | [], _ => exact ⟨_, rfl, rfl, rfl, Or.inl ⟨rfl, rfl, rfl⟩, by simp⟩
   | [l, r], _ => exact ⟨_, rfl, rfl, rfl, Or.inr ⟨l, r, rfl, rfl, rfl⟩, rfl⟩
+
+/-! ### UTF-8 facts (from the core encoder) -/
+
+theorem or_ge (x m : UInt8) (hm : 128 ≤ m.toNat) : 128 ≤ (x ||| m).toNat := by
+  rw [UInt8.toNat_or]; exact Nat.le_trans hm Nat.right_le_or
+
+/-- a byte below 0x80 in the UTF-8 encoding of `c` is the whole encoding, and `c` is that ASCII character -/
+theorem ascii_byte_of_utf8 (c : Char) (b : UInt8) (hb : b ∈ String.utf8EncodeChar c) (hlt : b.toNat < 128) :
+    String.utf8EncodeChar c = [b] ∧ c.toNat = b.toNat := by
+  have h1 := c.utf8Size_pos
+  have h4 := c.utf8Size_le_four
+  rcases (by omega : c.utf8Size = 1 ∨ c.utf8Size = 2 ∨ c.utf8Size = 3 ∨ c.utf8Size = 4) with h | h | h | h
+  · rw [String.utf8EncodeChar_eq_singleton h] at hb ⊢
+    simp only [List.mem_cons, List.not_mem_nil, or_false] at hb
+    subst hb
+    refine ⟨rfl, ?_⟩
+    have := Char.utf8Size_eq_one_iff.1 h
+    rw [UInt32.le_iff_toNat_le] at this
+    show c.val.toNat = c.val.toUInt8.toNat
+    rw [UInt32.toNat_toUInt8]
+    simp only [UInt32.reduceToNat] at this
+    omega
+  · rw [String.utf8EncodeChar_eq_cons_cons h] at hb
+    simp only [List.mem_cons, List.not_mem_nil, or_false] at hb
+    rcases hb with rfl | rfl
+    · have := or_ge ((c.val >>> 6).toUInt8 &&& 0x1f) 0xc0 (by decide); omega
+    · have := or_ge (c.val.toUInt8 &&& 0x3f) 0x80 (by decide); omega
+  · rw [String.utf8EncodeChar_eq_cons_cons_cons h] at hb
+    simp only [List.mem_cons, List.not_mem_nil, or_false] at hb
+    rcases hb with rfl | rfl | rfl
+    · have := or_ge ((c.val >>> 12).toUInt8 &&& 0x0f) 0xe0 (by decide); omega
+    · have := or_ge ((c.val >>> 6).toUInt8 &&& 0x3f) 0x80 (by decide); omega
+    · have := or_ge (c.val.toUInt8 &&& 0x3f) 0x80 (by decide); omega
+  · rw [String.utf8EncodeChar_eq_cons_cons_cons_cons h] at hb
+    simp only [List.mem_cons, List.not_mem_nil, or_false] at hb
+    rcases hb with rfl | rfl | rfl | rfl
+    · have := or_ge ((c.val >>> 18).toUInt8 &&& 0x07) 0xf0 (by decide); omega
+    · have := or_ge ((c.val >>> 12).toUInt8 &&& 0x3f) 0x80 (by decide); omega
+    · have := or_ge ((c.val >>> 6).toUInt8 &&& 0x3f) 0x80 (by decide); omega
+    · have := or_ge (c.val.toUInt8 &&& 0x3f) 0x80 (by decide); omega
+
+theorem utf8_append (a b : Str) : utf8 (a ++ b) = utf8 a ++ utf8 b := by simp [utf8]
+
+theorem utf8_cons (c : Char) (s : Str) : utf8 (c :: s) = String.utf8EncodeChar c ++ utf8 s := by simp [utf8]
+
+theorem utf8Decode?_utf8 (s : Str) : utf8Decode? (utf8 s) = some s := by
+  have : (utf8 s).toByteArray = s.utf8Encode := rfl
+  simp [utf8Decode?, this]
+
+theorem char_eq_of_toNat {c d : Char} (h : c.toNat = d.toNat) : c = d := by
+  apply Char.ext
+  apply UInt32.toNat_inj.1
+  exact h
+
+theorem no_backslash_byte (c : Char) (hc : c ≠ '\\') : ∀ b ∈ String.utf8EncodeChar c, b ≠ 0x5C := by
+  intro b hb h
+  subst h
+  have := (ascii_byte_of_utf8 c 0x5C hb (by decide)).2
+  exact hc (char_eq_of_toNat this)
+
+/-! ### the `unicode_escape` decoder on escape-free bytes -/
+
+def prependR (l : List Nat) (r : Except UErr (List Nat)) : Except UErr (List Nat) := l.foldr consR r
+
+theorem prependR_ok (l m : List Nat) : prependR l (.ok m) = .ok (l ++ m) := by
+  induction l with
+  | nil => rfl
+  | cons a l ih => simp [prependR, consR] at ih ⊢; rw [ih]
+
+theorem uesc_normal_plain (bs r : List UInt8) (h : ∀ b ∈ bs, b ≠ 0x5C) :
+    uesc .normal (bs ++ r) = prependR (bs.map UInt8.toNat) (uesc .normal r) := by
+  induction bs with
+  | nil => rfl
+  | cons b bs ih =>
+    have hb : b ≠ 0x5C := h b (by simp)
+    have := ih (fun b' hb' => h b' (by simp [hb']))
+    simp only [List.cons_append, uesc, hb, if_false, this, List.map_cons, prependR, List.foldr_cons]
+
+theorem latin1?_bytes (bs : List UInt8) : latin1? (bs.map UInt8.toNat) = some bs := by
+  induction bs with
+  | nil => rfl
+  | cons b bs ih =>
+    have : b.toNat < 256 := b.toNat_lt
+    simp [latin1?, ih, this]
+
+/-! ### the codec chain on manually quoted text -/
+
+theorem utf8_backslash : String.utf8EncodeChar '\\' = [0x5C] := by decide
+theorem utf8_dq : String.utf8EncodeChar '"' = [0x22] := by decide
+
+theorem quoteBody_cons (c : Char) (x : Str) :
+    quoteBody (c :: x) = (if c = '\\' ∨ c = '"' then ['\\', c] else [c]) ++ quoteBody x := by
+  simp [quoteBody]
+
+theorem prependR_append (a b : List Nat) (r) : prependR (a ++ b) r = prependR a (prependR b r) := by
+  simp [prependR]
+
+theorem uesc_quoteBody_append (x : Str) (r : List UInt8) :
+    uesc .normal (utf8 (quoteBody x) ++ r) = prependR ((utf8 x).map UInt8.toNat) (uesc .normal r) := by
+  induction x with
+  | nil => rfl
+  | cons c x ih =>
+    rw [quoteBody_cons, utf8_append, List.append_assoc, utf8_cons c x, List.map_append, prependR_append]
+    by_cases h1 : c = '\\'
+    · subst h1
+      have e : utf8 ['\\', '\\'] = [0x5C, 0x5C] := by decide
+      simp only [true_or, if_true, e, utf8_backslash, List.cons_append, List.nil_append]
+      simp [uesc, simpleEsc, ih, prependR]
+    · by_cases h2 : c = '"'
+      · subst h2
+        have e : utf8 ['\\', '"'] = [0x5C, 0x22] := by decide
+        simp only [or_true, if_true, e, utf8_dq, List.cons_append, List.nil_append]
+        simp [uesc, simpleEsc, ih, prependR]
+      · have e : utf8 [c] = String.utf8EncodeChar c := by simp [utf8]
+        simp only [h1, h2, or_self, if_false, e]
+        rw [uesc_normal_plain _ _ (no_backslash_byte c h1), ih]
+
+theorem decodeQuoted_quoteBody (x : Str) : decodeQuoted (quoteBody x) = .ok (toCps x) := by
+  have h := uesc_quoteBody_append x []
+  simp only [List.append_nil, uesc, prependR_ok] at h
+  simp [decodeQuoted, h, latin1?_bytes, utf8Decode?_utf8]
+
+/-! ### lexing quoted tokens -/
+
+/-- text between double quotes in which every `\` and `"` is preceded by an (unescaped) backslash -/
+inductive Safe : Str → Prop
+  | nil : Safe []
+  | plain (c : Char) (s : Str) : c ≠ '\\' → c ≠ '"' → Safe s → Safe (c :: s)
+  | esc (d : Char) (s : Str) : Safe s → Safe ('\\' :: d :: s)
+
+theorem Safe.append {a b : Str} (ha : Safe a) (hb : Safe b) : Safe (a ++ b) := by
+  induction ha with
+  | nil => exact hb
+  | plain c s h1 h2 _ ih => exact .plain c _ h1 h2 ih
+  | esc d s _ ih => exact .esc d _ ih
+
+theorem safe_quoteBody (x : Str) : Safe (quoteBody x) := by
+  induction x with
+  | nil => exact .nil
+  | cons c x ih =>
+    rw [quoteBody_cons]
+    by_cases h : c = '\\' ∨ c = '"'
+    · simp only [h, if_true]; exact .esc c _ ih
+    · simp only [h, if_false]
+      exact .plain c _ (fun e => h (Or.inl e)) (fun e => h (Or.inr e)) ih
+
+theorem readLoop_safe (cfg : LexCfg) (hq : '"' ∈ cfg.quotes) (body rest : Str) (hs : Safe body)
+    (token : Str) (pb : List Str) :
+    readLoop cfg (body ++ '"' :: rest) (some '"') token false pb =
+      .tok (token ++ body ++ ['"']) ⟨rest, some ' ', false, pb⟩ := by
+  induction hs generalizing token with
+  | nil => simp [readLoop, hq]
+  | plain c s h1 h2 _ ih =>
+    simp only [List.cons_append, readLoop, hq, h1, h2]
+    simp [ih]
+  | esc d s _ ih =>
+    simp only [List.cons_append, readLoop, hq]
+    by_cases hd : d = '\\'
+    · subst hd; simp [ih]
+    · simp [hd, ih]
+
+/-- the lexer configuration facts the round-trip theorems use -/
+structure DqCfg (cfg : LexCfg) : Prop where
+  sp_ws : ' ' ∈ cfg.whitespace
+  dq_ws : '"' ∉ cfg.whitespace
+  dq_sep : '"' ∈ cfg.separators
+  dq_q : '"' ∈ cfg.quotes
+
+def bnd (inp : Str) : Lexer := ⟨inp, some ' ', false, []⟩
+
+theorem getToken_quoted {cfg : LexCfg} (h : DqCfg cfg) (body rest : Str) (hs : Safe body) :
+    getToken cfg (bnd ('"' :: body ++ '"' :: rest)) = .tok ('"' :: body ++ ['"']) (bnd rest) := by
+  simp only [getToken, bnd, List.cons_append, readLoop, h.dq_ws, h.dq_sep, h.dq_q]
+  simp [readLoop_safe cfg h.dq_q body rest hs]
+
+theorem getToken_space {cfg : LexCfg} (h : DqCfg cfg) (inp : Str) :
+    getToken cfg (bnd (' ' :: inp)) = getToken cfg (bnd inp) := by
+  simp [getToken, bnd, readLoop, h.sp_ws]
+
+theorem getToken_eof (cfg : LexCfg) : getToken cfg (bnd []) = .tok [] ⟨[], none, false, []⟩ := by
+  simp [getToken, bnd, readLoop]
+
+theorem getToken_punct {cfg : LexCfg} (l : Char) (hw : l ∉ cfg.whitespace) (hsep : l ∈ cfg.separators)
+    (hq : l ∉ cfg.quotes) (inp : Str) :
+    getToken cfg (bnd (l :: inp)) = .tok [l] (bnd inp) := by
+  simp [getToken, bnd, readLoop, hw, hsep, hq]
+
+theorem handleToken_quoted (quotes : Str) (hq : '"' ∈ quotes) (body : Str) :
+    handleToken quotes ('"' :: body ++ ['"']) = decodeQuoted body := by
+  have h1 : ('"' :: body ++ ['"']).getLast? = some '"' := by
+    rw [show '"' :: body ++ ['"'] = ('"' :: body) ++ ['"'] from rfl, List.getLast?_append]; rfl
+  have h2 : (List.drop 1 ('"' :: body ++ ['"'])).dropLast = body := by simp
+  unfold handleToken
+  rw [h1, h2]
+  simp [hq]
+
+/-! ### parsing a blank-separated list of quoted tokens -/
+
+/-- a quoted token written with body-writer `w` -/
+def dq (w : Str → Str) (x : Str) : Str := '"' :: w x ++ ['"']
+
+/-- every item preceded by one blank -/
+def spaced (w : Str → Str) (xs : List Str) : Str := xs.flatMap fun x => ' ' :: dq w x
+
+theorem joinChar_dq (w : Str → Str) (x : Str) (xs : List Str) :
+    joinChar ' ' ((x :: xs).map (dq w)) = dq w x ++ spaced w xs := by
+  induction xs generalizing x with
+  | nil => simp [joinChar, spaced]
+  | cons y ys ih =>
+    simp only [List.map_cons, joinChar] at ih ⊢
+    rw [ih y]
+    simp [spaced]
+
+/-- what the parser needs to know about the Tokenizer instance for quoted tokens -/
+structure DqTok (T : TokCfg) : Prop where
+  lex : DqCfg T.lexCfg
+  q : '"' ∈ T.quotes
+  left : T.left.length ≤ 1
+  right : T.right.length ≤ 1
+
+/-- a writer whose output is lexed as one token and decoded back to the argument -/
+def GoodWriter (w : Str → Str) (x : Str) : Prop := Safe (w x) ∧ decodeQuoted (w x) = .ok (toCps x)
+
+theorem dq_ne_short (w : Str → Str) (x : Str) (t : Str) (h : t.length ≤ 1) : dq w x ≠ t := by
+  intro e
+  have := congrArg List.length e
+  simp [dq] at this
+  omega
+
+theorem topLoop_step_dq {T : TokCfg} (hT : DqTok T) (w : Str → Str) (x : Str) (hx : GoodWriter w x)
+    (n : Nat) (rest : Str) (args : List Tree) (ends : List (List Tree)) :
+    topLoop T (n + 1) (bnd (dq w x ++ rest)) args ends =
+      topLoop T n (bnd rest) (args ++ [.leaf (toCps x)]) ends := by
+  have hg : getToken T.lexCfg (bnd (dq w x ++ rest)) = .tok (dq w x) (bnd rest) := by
+    have := getToken_quoted hT.lex (w x) rest hx.1
+    simpa [dq] using this
+  have h0 : dq w x ≠ [] := dq_ne_short w x [] (by simp)
+  have h1 : ¬ (dq w x = ['|'] ∧ T.pipe = true) := fun h => dq_ne_short w x ['|'] (by simp) h.1
+  have h2 : dq w x ≠ T.left := dq_ne_short w x _ hT.left
+  have h3 : dq w x ≠ T.right := dq_ne_short w x _ hT.right
+  have h4 : handleToken T.quotes (dq w x) = .ok (toCps x) := by
+    rw [dq, handleToken_quoted _ hT.q, hx.2]
+  rw [topLoop, hg]
+  simp only [h0, h1, h2, h3, h4, if_false, PR.bind]
+
+theorem topLoop_spaced {T : TokCfg} (hT : DqTok T) (w : Str → Str) (xs : List Str)
+    (hx : ∀ x ∈ xs, GoodWriter w x) (n : Nat) (hn : xs.length + 1 ≤ n) (args : List Tree) :
+    topLoop T n (bnd (spaced w xs)) args [] = .ok (args ++ xs.map fun x => .leaf (toCps x), []) := by
+  induction xs generalizing n args with
+  | nil =>
+    obtain ⟨m, rfl⟩ : ∃ m, n = m + 1 := ⟨n - 1, by simp at hn; omega⟩
+    simp [spaced, topLoop, getToken_eof]
+  | cons x xs ih =>
+    obtain ⟨m, rfl⟩ : ∃ m, n = m + 1 := ⟨n - 1, by simp at hn; omega⟩
+    have e : spaced w (x :: xs) = ' ' :: (dq w x ++ spaced w xs) := by simp [spaced]
+    rw [e, topLoop, getToken_space hT.lex, ← topLoop, topLoop_step_dq hT w x (hx x (by simp))]
+    rw [ih (fun y hy => hx y (by simp [hy])) m (by simp at hn; omega)]
+    simp
+
+theorem tokenizeT_dq {T : TokCfg} (hT : DqTok T) (w : Str → Str) (xs : List Str)
+    (hx : ∀ x ∈ xs, GoodWriter w x) :
+    tokenizeT T (joinChar ' ' (xs.map (dq w))) = .ok (xs.map fun x => .leaf (toCps x)) := by
+  cases xs with
+  | nil => simp [tokenizeT, joinChar, fuelFor, topLoop, initLexer, getToken, readLoop, PR.bind, assemble]
+  | cons x xs =>
+    rw [joinChar_dq, tokenizeT, show initLexer (dq w x ++ spaced w xs) = bnd (dq w x ++ spaced w xs) from rfl]
+    have hlen : xs.length ≤ (spaced w xs).length := by
+      clear hx
+      induction xs with
+      | nil => simp
+      | cons y ys ih => simp [spaced] at ih ⊢; omega
+    rw [show fuelFor (dq w x ++ spaced w xs) = (2 * (dq w x ++ spaced w xs).length + 2) + 1 from rfl,
+      topLoop_step_dq hT w x (hx x (by simp)),
+      topLoop_spaced hT w xs (fun y hy => hx y (by simp [hy])) _ (by simp; omega)]
+    simp [PR.bind, assemble]
+
+theorem dqTok_of_mk {b quotes : Str} {pipe : Bool} {T : TokCfg}
+    (ht : TablesOk Gen.shlexWhitespace Gen.validBrackets Gen.validQuoteChars)
+    (hb : BracketOk Gen.shlexWhitespace Gen.validQuoteChars b)
+    (hT : mkTokenizer b pipe quotes = .ok T) (hq : '"' ∈ quotes) : DqTok T := by
+  obtain ⟨T', hT', hTq, _, hlr, hsep⟩ := mkTokenizer_ok hb pipe quotes
+  rw [hT] at hT'
+  cases hT'
+  have hq' : '"' ∈ T.quotes := hTq ▸ hq
+  refine ⟨⟨ht.2.1, ht.2.2.1, ?_, hq'⟩, hq', ?_, ?_⟩
+  · show '"' ∈ T.separators
+    rw [hsep]; exact List.mem_append_right _ hq
+  · rcases hlr with ⟨_, h, _⟩ | ⟨l, r, _, h, _⟩ <;> simp [h]
+  · rcases hlr with ⟨_, _, h⟩ | ⟨l, r, _, _, h⟩ <;> simp [h]
+
+theorem goodWriter_quoteBody (x : Str) : GoodWriter quoteBody x :=
+  ⟨safe_quoteBody x, decodeQuoted_quoteBody x⟩
 end C13
